@@ -43,20 +43,20 @@ CFG_QUICK = ["cfg-gcc-O2-vol", "cfg-clang-O3-vol", "cfg-gcc-O0-bz"]
 # probes that must have fired for the evidence to mean anything (checked in the thorough tier)
 REQUIRED_PROBES = {
     "C11": ["probe_hash_topup_and_continue", "probe_hash_topup_exact", "probe_hash_topup_short", "probe_hash_empty_update", "probe_hash_null_update",
-            "probe_hash_reinit_mid_message", "probe_hash_init_after_free", "probe_hash_init_after_finalize", "fault_dirty_object_memory", "preempted_inside_library_call"],
+            "probe_hash_reinit_mid_message", "probe_hash_init_after_free", "probe_hash_init_after_finalize", "fault_dirty_object_memory", "preempted_inside_library_call", "fault_object_moved_by_caller"],
     "C12": ["probe_hmac_key_empty", "probe_hmac_key_lt64", "probe_hmac_key_eq64", "probe_hmac_key_gt64", "probe_hmac_oneshot_checked",
             "probe_hmac_reinit_after_finalize", "probe_hmac_reinit_mid_message", "preempted_inside_library_call"],
     "C13": ["probe_hkdf_expand_crossed_8160", "probe_hkdf_expand_after_exhaustion", "probe_hkdf_oneshot_exactly_8160", "probe_hkdf_oneshot_refused",
             "probe_hkdf_zero_length_expand", "probe_hkdf_empty_salt", "probe_hkdf_leftover_served"],
     "C15": ["probe_prng_autoreseed_mid_generate", "probe_prng_two_autoreseeds_one_call", "probe_prng_short_delivery_on_autoreseed", "probe_prng_carry_chain",
-            "fault_delivery_short", "fault_delivery_zero"],
+            "fault_delivery_short", "fault_delivery_zero", "fault_object_moved_by_caller"],
     "C16": ["probe_prng_limit_lowered_below_emitted", "probe_prng_feed_at_budget_edge", "probe_prng_generate_to_edge", "probe_prng_autoreseed_mid_generate", "probe_prng_long_feed_run"],
     "C17": ["probe_prng_init_failed_delivery", "probe_prng_reseed_failed_delivery", "probe_prng_null_callback_init", "probe_prng_system_source_init",
             "probe_prng_twin_flip_checked", "probe_prng_twin_equiv_checked", "fault_delivery_short", "fault_delivery_zero", "fault_os_permanent"],
     "C18": ["probe_trng_success_after_retries", "probe_trng_permanent_error", "fault_os_eintr", "fault_os_eagain", "fault_os_permanent",
-            "fault_os_stale_errno_on_success", "fault_os_scribble_on_failure", "fault_os_open_fail", "fault_os_short_read", "probe_trng_fd_opened"],
+            "fault_os_stale_errno_on_success", "fault_os_scribble_on_failure", "fault_os_open_fail", "fault_os_short_read", "probe_trng_fd_opened", "fault_wall_clock_jump"],
     "C19": ["probe_mix_serial_compared_ops", "probe_mix_reorder_compared_ops", "preempted_inside_library_call", "fault_alloc_fail_runs", "fault_stack_paint"],
-    "C20": ["probe_free_checked", "probe_free_never_initialised", "probe_free_mid_message", "probe_free_after_finalize", "probe_free_twice", "probe_clean_checked"],
+    "C20": ["probe_free_checked", "probe_free_never_initialised", "probe_free_mid_message", "probe_free_after_finalize", "probe_free_twice", "probe_clean_checked", "probe_calls_through_c_caller_with_opaque_handles", "fault_object_moved_by_caller"],
 }
 
 RULE = {
